@@ -4,6 +4,7 @@ import (
 	"bytes"
 	"errors"
 	"fmt"
+	"hash/fnv"
 
 	"github.com/libsv/go-bt/v2"
 	"github.com/libsv/go-bt/v2/bscript/interpreter"
@@ -96,6 +97,15 @@ type recorder struct {
 	inStep               bool
 	stepOp               byte
 	scriptChanged        bool // the alt stack is dropped and P2SH restores the saved stack at a script change
+	// digests: one per State handed to a callback, taken as it arrives (before any scribbling):
+	// what a callback is shown does not depend on what an earlier callback did to ITS snapshot
+	digests []uint64
+}
+
+func stateDigest(s *interpreter.State) uint64 {
+	h := fnv.New64a()
+	fmt.Fprintf(h, "%x|%x|%x|%x|%v|%d|%d|%d", s.DataStack, s.AltStack, s.ElseStack, s.SavedFirstStack, s.CondStack, s.NumOps, s.ScriptIdx, s.OpcodeIdx)
+	return h.Sum64()
 }
 
 // retainedChanged reports a kept snapshot item that no longer has the bytes it was handed over with.
@@ -110,6 +120,9 @@ func (r *recorder) retainedChanged() string {
 
 func (r *recorder) see(s *interpreter.State) {
 	r.states++
+	if s != nil {
+		r.digests = append(r.digests, stateDigest(s))
+	}
 	if s != nil && r.badState == "" && len(s.Scripts) == 0 {
 		r.badState = "no scripts at all (an empty State was handed to the callback)"
 	}
